@@ -1,9 +1,10 @@
 import MdsVerif.Drv.Core
 import MdsVerif.Drv.C07
+import MdsVerif.Drv.C10
 /-! Registry of driver streams. -/
 namespace MdsVerif.Drv
 
-def streams : List Stream := [C07.stream]
+def streams : List Stream := [C07.stream, C10.StackS.stream, C10.MlinkS.stream, C10.MlinkS.qstream, C10.RingS.stream]
 
 def main (args : List String) : IO UInt32 := do
   match args with
